@@ -141,6 +141,14 @@ class Unser(object):
     __hash__ = None
 
 
+class CustomError(Exception):
+    """A user-defined exception type (importable, so that it survives the serializer)."""
+
+
+class HandlerError(Exception):
+    """Raised by the harness's failing data handlers / resolvers / extractors."""
+
+
 CLASSES = {"lib.pyvals.Pt": Pt, "lib.pyvals.Qt": Qt}
 _py_to_py_full = to_py
 
@@ -238,6 +246,8 @@ def to_pyval(j):
         return "(VClass %s)" % gstr(j["v"])
     if t == "unser":
         return "(VUnser %s)" % gN(j["v"])
+    if t == "other":
+        return "(VUnser 99%N)"       # something outside the value domain showed up on the implementation side
     raise ValueError(t)
 
 
